@@ -17,7 +17,7 @@ RULE = ('victim = release build of the current tree; every secret is run through
         'HMAC over SHA-1/SHA-256/SHA-512/SHA3-256/BLAKE2b/RIPEMD-160 (also a key longer than the block and a multi-call message), keyed BLAKE2b/2s MAC, ChaCha8/12/20 (16- and 32-byte keys), ChaChaOriginal, XChaCha20, Salsa20/12, XSalsa20, ChaCha20-Poly1305 one-shot encryption/decryption and incremental encryption, MacResult == for 16/20/28/32/48/64-byte MACs, Tag == and Tag::ct_eq with the first mismatch at every position. '
         'Monitor 3 (decides, value-independent): valgrind memcheck with the secret bytes marked undefined right before the call (ctgrind idiom): a "conditional jump depends on uninitialised value" '
         'report with a crate frame among the top frames means a branch condition derives from the secret, whether or not the sampled values take it differently (uses of the secret as a memory address are counted, not judged). '
-        'Builds: default, -C codegen-units=1 (all targets), force-32bits and the ed25519+x25519-only feature set (curve targets), +avx2 (hash / MAC / cipher targets that reach vectorised code). Secrets: random, all-zero, all-ones, single-bit, low/high Hamming weight; distinct = (target, secret)')
+        'Builds: default, -C codegen-units=1, opt-level=s, release with overflow checks + debug assertions (all targets), force-32bits and the ed25519+x25519-only feature set (curve targets), +avx2 (hash / MAC / cipher targets that reach vectorised code). Secrets: random, all-zero, all-ones, single-bit, low/high Hamming weight; distinct = (target, secret)')
 ASSUMPTIONS = ['decides on sampled secrets, this compiler and this host; says nothing about instruction latency or memory-address leakage',
                'callgrind and ptrace observe user-space instructions of the victim process; libc routines reached inside the region (memcpy, malloc) are part of the trace']
 FLOORS = {'evaluations': 300, 'distinct': 300}
@@ -190,7 +190,7 @@ def first_divergence(d, i, j, victim):
 
 
 def _monitors(rep, extra, inconclusive, label, vic, tgts, secrets, wd, tracer, thorough, replay):
-    sfx = '' if label.startswith('64') else ('@avx2' if 'avx2' in label else ('@cgu1' if 'codegen-units' in label else ('@curveonly' if 'curve-only' in label else '@f32')))
+    sfx = '' if label.startswith('64') else ('@avx2' if 'avx2' in label else ('@cgu1' if 'codegen-units' in label else ('@curveonly' if 'curve-only' in label else ('@chk' if 'debug assertions' in label else ('@os' if 'opt-level=s' in label else '@f32')))))
     # ---- monitor 2
     with ThreadPoolExecutor(max_workers=R.NPROC) as ex:
         res2 = list(ex.map(lambda t: callgrind_target(vic, t, secrets[t], wd), tgts))
@@ -212,8 +212,11 @@ def _monitors(rep, extra, inconclusive, label, vic, tgts, secrets, wd, tracer, t
             # make the replay self-contained: include the reference secret
             rep.violations.append(('callgrind', -1, 'C19:%s%s:instruction-histogram-depends-on-secret' % (t, sfx), 'reference secret', '%s %s' % (t, secrets[t][0][1].hex()), None))
     # ---- monitor 3 (few secrets suffice: the taint does not depend on the secret's value)
+    # (not on the overflow-checked build: every checked addition / subtraction on secret data is a conditional jump to the panic path whose
+    # condition derives from the secret but which no in-domain value ever takes - the executed sequence stays the same, which is what the
+    # property is about; that build is judged by the value-based monitors only)
     with ThreadPoolExecutor(max_workers=R.NPROC) as ex:
-        res3 = list(ex.map(lambda t: taint_target(vic, t, secrets[t][:6], wd), tgts))
+        res3 = list(ex.map(lambda t: taint_target(vic, t, secrets[t][:6], wd), tgts if sfx != '@chk' else []))
     for r in res3:
         t = r['target']
         if r.get('inconclusive'):
@@ -321,6 +324,13 @@ def run(tier, seed, replay=None):
             configs.append(('whole-crate optimisation (-C codegen-units=1)', victim_cgu1, targets))
         except R.Inconclusive as e:
             inconclusive.append('codegen-units=1 victim not built: %s' % str(e)[-200:])
+    # optimised builds that keep overflow checks and debug assertions (fuzzing / hardened release profiles), and the size-optimised build
+    for cfgname, label_ in (('chk', 'optimised build with overflow checks and debug assertions'), ('os', 'size-optimised build (-C opt-level=s)')):
+        if not replay or os.environ.get('C19_REPLAY_' + cfgname.upper()):
+            try:
+                configs.append((label_, R.build(cfgname, binary='ctvictim'), targets))
+            except R.Inconclusive as e:
+                inconclusive.append('%s victim not built: %s' % (cfgname, str(e)[-200:]))
     # the library as a pure Ed25519 / X25519 user compiles it (cargo features ed25519 + x25519 only)
     if not replay or os.environ.get('C19_REPLAY_CURVEONLY'):
         try:
